@@ -21,6 +21,8 @@ def theta_of_allocation():
     cap = []
     import numpy as _np
 
+    if isinstance(getattr(CR, "THETA", None), float):
+        return Fraction(CR.THETA).limit_denominator(10**6)
     orig = CR.np
 
     class Cap:
@@ -36,7 +38,7 @@ def theta_of_allocation():
         CR.compute_mc_paths_giles(1.0, _np.array([1.0]), _np.array([1.0]))
     finally:
         CR.np = orig
-    x = float(cap[0][0])
+    x = float(_np.atleast_1d(cap[0])[0])
     return (1 - 1 / Fraction(x)).limit_denominator(10**6)
 
 
@@ -50,7 +52,14 @@ def replay_alloc(sc):
         return True, f"compute_mc_paths_giles(eps={eps}, V={vl.tolist()}, C={cl.tolist()}) = {N.tolist()}: a level with positive variance gets 0 samples"
     var = sum(v / n for v, n in zip(vl, N) if n > 0)
     ok = var > (1 - theta) * eps**2 * (1 + 1e-9)
-    return ok, f"compute_mc_paths_giles(eps={eps}, V={vl.tolist()}, C={cl.tolist()}) = {N.tolist()}: sum V/N = {var!r} vs (1-theta) eps^2 = {(1 - theta) * eps ** 2!r}"
+    msg = f"compute_mc_paths_giles(eps={eps}, V={vl.tolist()}, C={cl.tolist()}) = {N.tolist()}: sum V/N = {var!r} vs (1-theta) eps^2 = {(1 - theta) * eps ** 2!r}"
+    if all(c > 0 for c in cl):
+        x = np.sqrt(vl / cl) * np.sum(np.sqrt(vl * cl)) / ((1 - theta) * eps**2)
+        wrong = [i for i in range(len(x)) if not (x[i] * (1 - 1e-12) <= N[i] < x[i] * (1 + 1e-12) + 1)]
+        if wrong:
+            ok = True
+            msg += f"; real-valued optimal sizes {x.tolist()} are not rounded up to {N.tolist()}"
+    return ok, msg
 
 
 def replay_budget(sc):
@@ -79,19 +88,19 @@ def h_alloc(ctx, n, zero_cost):
             ctx.assume(c > 0)
     vl = np.array(Vs, dtype=object)
     cl = np.array(Cs, dtype=object)
-    captured = []
-    shims.CEIL_HOOKS.append(lambda x: captured.append(list(x)))
-    try:
-        N = CR.compute_mc_paths_giles(eps, vl, cl)
-    finally:
-        shims.CEIL_HOOKS.pop()
+    N = CR.compute_mc_paths_giles(eps, vl, cl)
     rp = (replay_alloc, lambda m: {"V": [str(m.frac(f"V{i}")) for i in range(n)], "C": [str(m.frac(f"C{i}")) for i in range(n)], "eps": str(m.frac("eps")), "theta": str(theta)})
     some_zero_cost = OR(*[EQ(c, 0) for c in Cs]) if zero_cost else False
     regions = {"some_level_has_zero_cost": some_zero_cost}
     # no level with positive variance is left without samples; then the variance budget
     for i in range(n):
         ctx.prove("C06.positive_variance_gets_samples", IMPLIES(Vs[i] > 0, N[i] >= 1), info={"n": n, "level": i}, replay=rp, regions=regions)
-    x = captured[0]  # real-valued optimal sizes before rounding up
+    if zero_cost:
+        return
+    # real-valued optimal sizes (Lagrange): x_l = sqrt(V_l / C_l) * sum_j sqrt(V_j C_j) / ((1 - theta) eps^2), written here from the definition
+    root = shims.NP.sqrt
+    lagr = sum(root(Vs[j] * Cs[j]) for j in range(n)) / ((1 - theta) * eps * eps)
+    x = [root(Vs[i] / Cs[i]) * lagr for i in range(n)]
     for i in range(n):
         ctx.prove("C06.sizes_are_rounded_up", AND(N[i] >= x[i], N[i] < x[i] + 1), info={"n": n}, replay=rp)
     # sum_l V_l / x_l == (1-theta) eps^2 on the levels with V_l > 0 (x_l > 0 there), hence sum V_l/N_l <= (1-theta) eps^2
@@ -234,13 +243,9 @@ def h_twin(ctx):
     Cs = [ctx.real(f"C{i}") for i in range(2)]
     for v in Vs + Cs:
         ctx.assume(v > 0)
-    captured = []
-    shims.CEIL_HOOKS.append(lambda x: captured.append(list(x)))
-    try:
-        CR.compute_mc_paths_giles(eps, np.array(Vs, dtype=object), np.array(Cs, dtype=object))
-    finally:
-        shims.CEIL_HOOKS.pop()
-    x = captured[0]
+    root = shims.NP.sqrt
+    lagr = sum(root(Vs[j] * Cs[j]) for j in range(2)) / ((1 - theta) * eps * eps)
+    x = [root(Vs[i] / Cs[i]) * lagr for i in range(2)]
     ctx.prove("C06.twin.wrong_share", EQ(Vs[0] / x[0] + Vs[1] / x[1], (1 - theta / 2) * eps * eps))
 
 
